@@ -155,7 +155,7 @@ class Tools:
         err = ' '.join(p.stderr.split())
         return 'CRASH %s %s' % (p.returncode, err[:1500])
 
-    def O(self, lines, timeout=1500):
+    def O(self, lines, timeout=3600):
         out, fails = vf.par_lines(self.ora, lines, timeout=timeout)
         if fails:
             raise vf.Infra('oracle_offset failed: rc=%s %s' % (fails[0][1], fails[0][2][-500:]))
